@@ -159,7 +159,9 @@ func (g *gen) block(depth int) *Block {
 		b.Outcome = "adderror" // `return tx.AddError(err)`: the error is also left on the handle the block was given
 	default:
 		b.Outcome = "panic"
-		if g.r.Chance(20) {
+		if g.r.Chance(30) {
+			b.Outcome = "panic_op" // the panic comes from inside an operation of the block (a hook), not from the block's own code
+		} else if g.r.Chance(20) {
 			b.Outcome = "goexit" // the goroutine ends inside the block (runtime.Goexit, what t.Fatal does): deferred calls run, recover() sees nothing
 		}
 	}
@@ -645,6 +647,13 @@ func (r *run) body(tx *gorm.DB, b *Block, depth int, path string) error {
 	case "panic":
 		r.nextID++
 		panic(&panicVal{r.nextID})
+	case "panic_op":
+		r.nextID++
+		fam.KVPanic = &panicVal{r.nextID}
+		defer func() { fam.KVPanic = nil }()
+		tx.Create(&fam.KV{K: fmt.Sprintf("panic-%d", r.nextID), V: "panic!"})
+		// not reached: KV's BeforeCreate panics
+		return fmt.Errorf("the panicking insert returned")
 	}
 	return nil
 }
